@@ -87,90 +87,94 @@ Proof.
   destruct (field_pf_inv _ _ _ _ _ _ _ _ _ _ _ Hpf) as [t [a0 [il [_ [_ E]]]]]. subst pf. reflexivity.
 Qed.
 
-Theorem obj_uniq C S frs : forall fuel g pub cn rt r sels at_ tv out pub' cs fc kv n,
-  parse_type_def fuel C S frs pub cn r sels at_ [] tv = Ok (out, pub', false) ->
-  sels_ok g true C S frs at_ rt r sels = true -> tv_ok rt tv ->
+Theorem obj_uniq C S frs : forall fuel g mx pub cn rt r sels at_ eb tv out pub' cs fc kv n,
+  parse_type_def fuel C S frs pub cn r sels at_ eb tv = Ok (out, pub', false) ->
+  sels_ok g true C S frs mx at_ rt r sels = true -> tv_ok rt tv ->
   (at_ = true -> has_typename sels = true) -> table_ok cs out ->
+  mx_ok cs mx = true -> harmless cs eb ->
   obj_conf fc S frs rt sels kv = true -> jwf (JObj kv) = true ->
   n >= fuel + 2 ->
   uniq n cs (AClass cn) (JObj kv) = true.
 Proof.
   induction fuel as [|fuel IH];
-    intros g pub cn rt r sels at_ tv out pub' cs fc kv n Hp Hok Htv Hat Htab Hc Hwf Hn;
+    intros g mx pub cn rt r sels at_ eb tv out pub' cs fc kv n Hp Hok Htv Hat Htab Hmx Heb Hc Hwf Hn;
     [discriminate Hp|].
-  destruct (level_inv _ _ _ _ _ _ _ _ _ _ _ _ _ _ _ Hp Hok Hat)
+  destruct (level_inv _ _ _ _ _ _ _ _ _ _ _ _ _ _ _ _ _ Hp Hok Hat)
     as [f2 [g' [fns [pfl [extra [Ef [Eg [Hfl [Hrun Hout]]]]]]]]].
-  destruct (sels_ok_inv _ _ _ _ _ _ _ _ _ Hok) as [g'' [fns' [Eg' [Hfl' [Hkeys [Hnames Hfields]]]]]].
+  destruct (sels_ok_inv _ _ _ _ _ _ _ _ _ _ Hok) as [g'' [fns' [Eg' [Hfl' [Hkeys [Hnames Hfields]]]]]].
   rewrite Eg in Eg'. inversion Eg'; subst g''. clear Eg'.
   rewrite Hfl in Hfl'. inversion Hfl'; subst fns'. clear Hfl'.
-  destruct (obj_conf_inv _ _ _ _ _ _ C _ _ _ Hc Hfl Hkeys) as [Hkv Hspec].
+  cbn [keys_okG] in Hkeys. pose proof (keys_ok_D _ _ Hkeys) as HkeysD.
+  destruct (obj_conf_inv _ _ _ _ _ _ C _ _ _ Hc Hfl HkeysD) as [Hkv Hspec].
   destruct n as [|[|[|[|n3]]]]; try lia.
   set (n1 := Datatypes.S (Datatypes.S n3)). set (n' := Datatypes.S n1).
-  assert (Hc0 : In {| c_name := cn; c_bases := ["BaseModel"]; c_fields := pfl |} out)
+  assert (Hc0 : In {| c_name := cn; c_bases := "BaseModel" :: eb; c_fields := pfl |} out)
     by (rewrite Hout; left; reflexivity).
   destruct (Htab _ Hc0) as [Hl Hnb]. simpl in Hl, Hnb.
   change (class_uniq (uniq n' cs) (mro_fields n' cs cn) (JObj kv) = true).
-  unfold n', n1. rewrite (mro_simple cs cn _ (Datatypes.S n3) Hl eq_refl Hnb). simpl c_fields.
+  unfold n', n1. rewrite (mro_harmless cs cn _ (Datatypes.S n3) eb Hl eq_refl Hnb Heb). simpl c_fields.
   fold n1.
   simpl in Hwf. apply andb_true_iff in Hwf as [Hnd Hmem]. rewrite forallb_forall in Hmem.
   eapply (level_uniq C (uniq (Datatypes.S n1) cs) kv fns pfl).
   - eapply (level_facts C S frs fuel g' true cs (uniq (Datatypes.S n1) cs) (fun j => jwf j = true)
                         class_uniq (uniq n1 cs) (mro_fields n1 cs)
-                        (sels_ok g' true C S frs) (sels_ok_ok_inv g' true C S frs))
+                        (sels_ok g' true C S frs mx) mx (harmless cs) (fun eb0 => mx_ok_harmless cs mx eb0 Hmx)
+                        (sels_ok_ok_inv g' true C S frs mx))
       with (K := map field_key fns);
       try eassumption; try reflexivity; auto.
     + intros l Hl' x Hx. simpl in Hl'. rewrite forallb_forall in Hl'. apply Hl', Hx.
     + intros m j _ _. apply scalar_ann_cov.
-    + intros c Hlc Hnc Hbc. unfold n1. apply mro_simple; auto.
+    + intros c eb0 Hlc Hnc Hbc Hh. unfold n1. eapply mro_harmless; eauto.
     + eauto.
-    + intros pb cn2 rt2 r2 sels2 at2 tvs out2 pub2 fc2 kv2 P1 P2 P3 P4 P5 P6 P7.
+    + intros pb cn2 rt2 r2 sels2 at2 eb2 tvs out2 pub2 fc2 kv2 P0 P1 P2 P3 P4 P5 P6 P7.
       change (uniq (Datatypes.S n1) cs (AClass cn2) (JObj kv2) = true).
       eapply IH; eauto.
       * right. eauto.
       * unfold n1. lia.
-    + apply keys_ok_forall, Hkeys.
+    + apply keys_ok_forall, HkeysD.
     + eapply table_ok_incl; [exact Htab|]. rewrite Hout. apply incl_tl, incl_refl.
   - eapply fields_run_alias; exact Hrun.
-  - apply keys_ok_forall, Hkeys.
+  - apply keys_ok_forall, HkeysD.
   - eapply keys_ok_nodup; eauto.
   - apply Hnames. reflexivity.
   - apply nodupb_NoDup, Hnd.
   - exact Hkv.
 Qed.
 
-Theorem op_uniq C S frs fuel kind name sels root own pub' cls g fc j n :
+Theorem op_uniq C S frs fuel kind name mixins sels root own pub' cls g mx fc j n :
   root_type_name S kind = Ok root ->
-  op_parse fuel C S frs kind name [] sels = Ok (own, pub', false) ->
-  all_classes fuel C S frs (DOp kind name [] sels) = Ok cls ->
-  op_ok g true C S frs root sels = true -> no_basemodel own = true ->
+  op_parse fuel C S frs kind name mixins sels = Ok (own, pub', false) ->
+  all_classes fuel C S frs (DOp kind name mixins sels) = Ok cls ->
+  op_ok g true C S frs mx mixins root sels = true -> mx_ok cls mx = true -> no_basemodel own = true ->
   conf_op fc S frs root sels j = true -> jwf j = true ->
   n >= fuel + 2 ->
   uniq n cls (AClass (pascal_s name)) j = true.
 Proof.
-  intros Hroot Hop Hall Hok Hnb Hconf Hwf Hn.
-  pose proof (op_table _ _ _ _ _ _ _ _ _ _ Hop Hall Hnb) as Htab.
-  unfold op_ok in Hok. apply andb_true_iff in Hok as [Hobj Hsels].
+  intros Hroot Hop Hall Hok Hmx Hnb Hconf Hwf Hn.
+  pose proof (op_table _ _ _ _ _ _ _ _ _ _ _ Hop Hall Hnb) as Htab.
+  unfold op_ok in Hok. apply andb_true_iff in Hok as [Hobj Hsels]. apply andb_true_iff in Hobj as [Hobj Hmix].
+  pose proof (mx_ok_harmless _ _ _ Hmx Hmix) as Hharm.
   destruct (conf_op_obj _ _ _ _ _ _ Hobj Hconf) as [kv [k [Ej Hc]]]. subst j.
   unfold op_parse in Hop. rewrite Hroot in Hop. simpl in Hop.
   eapply obj_uniq; eauto; [left; reflexivity | discriminate].
 Qed.
 
 (* acceptance, parse exactly on the occurrences present, never on null - for every conformant duplicate-free response *)
-Theorem parse_once_op C S frs fuel kind name sels root own pub' cls g fc j n :
+Theorem parse_once_op C S frs fuel kind name mixins sels root own pub' cls g mx fc j n :
   root_type_name S kind = Ok root ->
-  op_parse fuel C S frs kind name [] sels = Ok (own, pub', false) ->
-  all_classes fuel C S frs (DOp kind name [] sels) = Ok cls ->
-  op_ok g true C S frs root sels = true -> no_basemodel own = true ->
+  op_parse fuel C S frs kind name mixins sels = Ok (own, pub', false) ->
+  all_classes fuel C S frs (DOp kind name mixins sels) = Ok cls ->
+  op_ok g true C S frs mx mixins root sels = true -> mx_ok cls mx = true -> no_basemodel own = true ->
   conf_op fc S frs root sels j = true -> jwf j = true -> n >= fuel + 2 ->
   accepts n cls (schema_enums S) (AClass (pascal_s name)) j = true /\
   Permutation (plog n cls (AClass (pascal_s name)) j) (pocc n cls (AClass (pascal_s name)) j) /\
   Forall (fun e => snd e <> JNull) (plog n cls (AClass (pascal_s name)) j).
 Proof.
-  intros Hr Hop Hall Hok Hnb Hconf Hwf Hn.
-  assert (Ha := op_accepts C S frs fuel kind name sels root own pub' cls g true fc j n
-                  Hr Hop Hall Hok Hnb Hconf Hn).
-  assert (Hu := op_uniq C S frs fuel kind name sels root own pub' cls g fc j n
-                  Hr Hop Hall Hok Hnb Hconf Hwf Hn).
+  intros Hr Hop Hall Hok Hmx Hnb Hconf Hwf Hn.
+  assert (Ha := op_accepts C S frs fuel kind name mixins sels root own pub' cls g true mx fc j n
+                  Hr Hop Hall Hok Hmx Hnb Hconf Hn).
+  assert (Hu := op_uniq C S frs fuel kind name mixins sels root own pub' cls g mx fc j n
+                  Hr Hop Hall Hok Hmx Hnb Hconf Hwf Hn).
   split; [exact Ha|]. split; [apply ParseLogP.parse_once_response; exact Hu|].
   eapply ParseLogP.parse_never_null; exact Ha.
 Qed.
